@@ -52,6 +52,12 @@ def _text(r, unicode_ok, kv_safe):
     s = "".join(r.choice(al) for _ in range(n))
     if kv_safe:
         s = s.strip()
+    if unicode_ok and n >= 2 and r.random() < 0.25:
+        # a character that some line-splitting routines treat as a line boundary (the formats end an entry with "\n" only), in the interior
+        k = r.randint(1, len(s) - 1) if len(s) >= 2 else 0
+        if k:
+            # (a carriage return is a line break of the key=value FILE — text mode reads it as one: C19_roundtrip_keyval_through_text_file — JSON escapes it)
+            s = s[:k] + r.choice(u"\u2028\u2029\x85\x0b\x0c\x1c\x1d\x1e" + (u"" if kv_safe else u"\r")) + s[k:]
     return s
 
 
@@ -125,6 +131,10 @@ def cases(chk):
             yield "config", {"fmt": fmt, "how": how, "cfg": {"phone": "491234", "cc": 49, "client_static_keypair": "11" * 64, "pushname": "yo"}}
     yield "config", {"fmt": "keyval", "how": "profile-libsave", "cfg": {"phone": "491234", "cc": 49, "pushname": "yo"}}
     yield "config", {"fmt": "json", "how": "profile-libsave", "cfg": {"phone": "491234", "cc": 49, "pushname": "yo"}}
+    for i, ch in enumerate(u"\u2028\u2029\x85\x0b\x0c\x1c\x1d\x1e"):
+        for fmt in ("json", "keyval"):
+            yield "config", {"fmt": fmt, "how": ["path-ext", "path-noext", "profile"][i % 3], "cfg": {"phone": "491234", "cc": 49, "client_static_keypair": "66" * 64,
+                                                                                              "pushname": u"Alice" + ch + u"cc=7", "fdid": u"a" + ch + u"b"}}
     for fmt in ("json", "keyval"):
         for via in ("profile", "manager"):
             yield "config", {"fmt": fmt, "how": "profile-both", "via": via, "cfg": {"phone": "491234", "cc": 49, "client_static_keypair": "33" * 64, "pushname": "both"}}
